@@ -579,6 +579,32 @@ CHECKS["C20"]["note"] = CHECKS["C20"]["note"] + (
     " Hooks are modelled as per-journal functions entry -> option exn fixed before entry; hooks that mutate the IR and hooks "
     "added or cleared mid-block are not modelled.")
 
+CHECKS["C01"].update(
+    text="Coq proof over an executable 36-op heap model of Value/Node/Graph (Graph(...) with arguments, container mutators "
+         "incl. popitem/update/setdefault, slices, Graph.sort installation included), every op returning the partially "
+         "mutated state on Raise. Proved for every history, rejected calls included: I1 (uses <-> node inputs) for every "
+         "configuration; I1 and I3-I7 (node.graph <-> node sequence, ownership flags/ref counters <-> collections, "
+         "initializers keyed by name, inputs/initializers without producer) after every history of the repaired model "
+         "(C01_inv_reachable_fixed) and of the current code on histories avoiding its open site (a node output that is a "
+         "graph input or initializer: known finding node-output-owned); I2 (outputs <-> producer/index) as its own theorem. "
+         "Sites repaired by fix commits are switched in current_cfg, their old behaviour kept as *_refuted_before_fix "
+         "witnesses. Tie: every op of generated histories (incl. malformed calls at every argument position, exhaustive "
+         "short container histories, nested sorts) is executed on real objects and outcome + hash of the full public "
+         "observation is compared inside Coq after every op; the oracle recomputes I1-I7 through public accessors.",
+    technique="Coq invariant proof over heap model of the 36-op mutator alphabet; per-step vm_compute correspondence "
+              "(hashed observations)")
+CHECKS["C01"]["note"] = TRUST + ("Oracle-only (not in the Coq model): stepped/negative slices, list.sort, "
+    "register_initializer, the convenience functions. Graph.sort's order and cycle verdict enter from the implementation "
+    "(C12). The executor rebinds onnx_ir._core.frozenset to an insertion-ordered set (Graph.remove iterates a frozenset of "
+    "nodes in address order). Node sequence is a plain list here (C11).")
+CHECKS["C06"]["text"] = ("Same heap model as C01. Every raising op of the repaired model returns the input heap itself "
+    "(C06_raise_frame_fixed, whole 36-op alphabet, every argument position); the current code likewise on histories avoiding "
+    "the open sites (C06_raise_frame, stated on the full observation obs_all). Sites repaired upstream (graph list "
+    "extend/insert/setitem, initializer setitem/update, empty names, Graph.extend/insert, replace_all_uses_with on outputs, "
+    "Graph(...), convenience.replace_all_uses_with) are kept as *_refuted_before_fix witnesses. replace_nodes_and_values "
+    "remains a recorded non-atomic finding (oracle-only). Tie: rejection shapes at every argument position and random "
+    "histories executed on real objects, full observation compared inside Coq after every op.")
+
 
 def main():
     props = [json.loads(l) for l in open(os.path.join(VERIF, "properties.jsonl"))]
